@@ -43,6 +43,16 @@ var Meta = map[string]PropMeta{
 		Quick:     q(400, 50*time.Second),
 		Thorough:  q(20000, 20*time.Minute),
 	},
+	"C19": {
+		Level:     "exploration",
+		Technique: "deterministic simulation: real daemon accept loop (Server.Serve) on a simulated listener whose connections carry chosen peer addresses; reference daemon client asks for the module; independent first-match model written with net/netip as oracle; thorough tier enumerates the whole rule-pool product",
+		Rule:      "rule lists of length 0..3 from a pool of 31 rules (allow/deny x all, /0, /8, /24, /32, /128, IPv4-mapped prefixes, nested and disjoint networks, and malformed rules: missing space, unknown action, bare address, bad prefix length, double space, trailing space, upper case, bad octet, empty) x addresses from a pool of 26 (IPv4, IPv6, IPv4-mapped IPv6 on and around every prefix boundary). Oracle: '@RSYNCD: OK' and a complete session iff the first rule containing the address says allow or no rule matches; otherwise (also when evaluation reaches a malformed rule) an @ERROR line followed by EOF with no further byte. quick samples lists and 6 addresses per list; thorough enumerates all 1+31+31^2+31^3 = 30784 lists x all 26 addresses. Non-trivial = non-empty rule list",
+		Assumptions: []string{"input/configuration-quantified (pure decision function); the simulated network supplies arbitrary peer addresses, which real sockets cannot", "independent model semantics for IPv4-mapped addresses: an IPv4 prefix contains the corresponding mapped IPv6 address and vice versa (what net.IPNet.Contains does)"},
+		Real:      realCommon, Stub: append([]string{"client: reference daemon client"}, stubCommon...),
+		Quick:     q(600, 50*time.Second),
+		Thorough:  TierCfg{Runs: 31000, Budget: 40 * time.Minute, JobTimeout: 180 * time.Second},
+		EnumTotal: 30784,
+	},
 	"C02": {
 		Level:     "exploration",
 		Technique: "deterministic simulation: reference protocol-27 receiver (independent implementation, cross-checked against tridge rsync 3.2.7) drives the real sender with block-checksum sets of its own choosing over bases of its own choosing; reference sender drives the real receiver with scripted token streams; scheduled transport and short-reading simulated sender disk; bounded enumeration of the small-alphabet sub-space in the thorough tier",
@@ -70,6 +80,15 @@ var Meta = map[string]PropMeta{
 		Real:      realCommon, Stub: stubCommon,
 		Quick:     q(150, 60*time.Second),
 		Thorough:  q(6000, 25*time.Minute),
+	},
+	"C07": {
+		Level:     "exploration",
+		Technique: "deterministic simulation: real daemon with modules of mixed writability behind Serve(simulated listener) or HandleDaemonConn, attacked by the real pushing client and by a reference protocol-27 sender with hand-written argument lines; module snapshot as step invariant and final oracle",
+		Rule:      "daemon with modules rw (writable), ro (directory, read-only), rofs (fs.FS-backed) and r (writable, name is a prefix of the read-only ones); upload target ro|rofs plus sub-path from {'', '/', '/sub', '/sub/', '/a/b/c/', '/../rw/', '/.', existing entry}; flags: random subset of -t -p -l -D -o -g -c -I -n --delete -a (real client) or raw argument lines without --sender in several spellings (hostile client sending a list and data). Oracle: snapshot of both read-only module trees (content, mode, mtime ns, owner, link target) identical at every 4th scheduler step and at the end; the client ends with an error (@ERROR line, error frame or failed session). Non-trivial = every run (a refusal was observed)",
+		Assumptions: []string{"refproto sender is the hostile peer"},
+		Real:      realCommon, Stub: append([]string{"hostile peer: reference sender"}, stubCommon...),
+		Quick:     q(300, 50*time.Second),
+		Thorough:  q(15000, 15*time.Minute),
 	},
 	"C09": {
 		Level:     "exploration",
